@@ -137,6 +137,20 @@ def place_tags(lines, ids, shape, rng):
     raise ValueError(shape)
 
 
+def _lines_inside_delimited_comment(text):
+    """0-based indices i such that inserting a line BEFORE line i puts it inside a /* */ comment."""
+    from lib import vlex
+
+    out = set()
+    line = 0
+    for k, t in vlex.segs(text):
+        n = t.count("\n")
+        if k == "bcom" and n:
+            out.update(range(line + 1, line + n + 1))
+        line += n
+    return out
+
+
 def apply_tags(lines, placement):
     L = list(lines)
     # stable: insert in descending index order; equal indices keep listed order top-down
@@ -190,6 +204,11 @@ def run_case(case):
         if not ids:
             return {"status": "skip", "why": "no violations to suppress"}
         placement, pick = place_tags(lines, ids, case["shape"], rng)
+        # a tag line that would land inside a delimited comment /* ... */ is not a comment token of its own
+        # (so not a tag): such placements are outside the documented use and are skipped
+        inside = _lines_inside_delimited_comment(text)
+        if any(idx in inside for idx, _ in placement):
+            return {"status": "skip", "why": "placement inside a delimited comment"}
         tagged = apply_tags(lines, placement)
         neutral = [x.replace("vsg_", "xsg_") if x.strip().startswith("-- vsg_") else x for x in tagged]
         m = model(tagged)
